@@ -97,7 +97,7 @@ Lemma ty_of_set_ty e t : ty_of (set_ty e t) = t.
 Proof. destruct e; reflexivity. Qed.
 
 (* unify gives both expressions the returned type *)
-Lemma unify_ty a b a' b' t : unify a b = COk (a', b', t) -> ty_of a' = t /\ ty_of b' = t.
+Lemma unify_ty f a b a' b' t : unify f a b = COk (a', b', t) -> ty_of a' = t /\ ty_of b' = t.
 Proof.
   unfold unify. intro H.
   destruct (cty_eqb (ty_of a) (ty_of b)).
@@ -118,7 +118,7 @@ Definition unify_compat (t1 t2 : cty) : bool :=
   | _, _ => false
   end.
 
-Lemma unify_incompat a b : unify_compat (ty_of a) (ty_of b) = false -> unify a b = CErr E_TypeMismatch.
+Lemma unify_incompat f a b : unify_compat (ty_of a) (ty_of b) = false -> unify f a b = CErr E_TypeMismatch.
 Proof.
   unfold unify, unify_compat. intro H. apply orb_false_iff in H. destruct H as [H1 H2]. rewrite H1.
   destruct (ty_of a) as [|[]|[]| | | |]; destruct (ty_of b) as [|[]|[]| | | |]; try discriminate; reflexivity.
@@ -184,7 +184,7 @@ Lemma if_branches_differ_rejected f D st c a b c1 st1 a1 st2 b1 st3 :
 Proof.
   intros Hc Ha Hb Hu. cbn [Infer.check_expr]. rewrite Hc. cbn [cbind fst snd]. rewrite Ha. cbn [cbind fst snd].
   rewrite Hb. cbn [cbind fst snd]. destruct (check_type f c1 CBool); cbn [cbind is_ok]; auto.
-  rewrite (unify_incompat _ _ Hu). reflexivity.
+  rewrite (unify_incompat _ _ _ Hu). reflexivity.
 Qed.
 
 (* the operators that unify their operands: arithmetic, bitwise, comparisons, equality *)
@@ -201,7 +201,7 @@ Lemma operands_differ_rejected f D st op x y x1 st1 y1 st2 :
   check_expr (S f) D st (XOp op x y) = CErr E_TypeMismatch.
 Proof.
   intros Hop Hx Hy Hu. cbn [Infer.check_expr]. rewrite Hx. cbn [cbind fst snd]. rewrite Hy. cbn [cbind fst snd].
-  destruct op; try discriminate Hop; rewrite (unify_incompat _ _ Hu); reflexivity.
+  destruct op; try discriminate Hop; rewrite (unify_incompat _ _ _ Hu); reflexivity.
 Qed.
 
 (* `&&` / `||` on a non-bool operand *)
@@ -235,6 +235,15 @@ Proof.
   rewrite (cty_eqb_neq _ _ H1), (cty_eqb_neq _ _ H2). reflexivity.
 Qed.
 
+(* the same for the version every caller outside constrain_type uses (fix 64720dd): the type test comes first *)
+Lemma coc_unsigned_deep_wrong_ty f e u :
+  ty_of e <> CUnsigned u -> ty_of e <> CUnsigned UnspecifiedU ->
+  coc_unsigned_deep f e u = CErr E_UnexpectedType.
+Proof.
+  intros H1 H2. unfold coc_unsigned_deep, is_uU, uU.
+  rewrite (cty_eqb_neq _ _ H1), (cty_eqb_neq _ _ H2). reflexivity.
+Qed.
+
 Lemma index_not_usize_rejected f D st a i a1 st1 i1 st2 :
   check_expr f D st a = COk (a1, st1) -> check_expr f D st1 i = COk (i1, st2) ->
   ty_of i1 <> CUnsigned Usize -> ty_of i1 <> CUnsigned UnspecifiedU ->
@@ -242,7 +251,7 @@ Lemma index_not_usize_rejected f D st a i a1 st1 i1 st2 :
 Proof.
   intros Ha Hi H1 H2. cbn [Infer.check_expr]. rewrite Ha. cbn [cbind fst snd]. rewrite Hi. cbn [cbind fst snd].
   destruct (expect_array_type (ty_of a1)); cbn [cbind is_ok]; auto.
-  rewrite (coc_unsigned_wrong_ty _ _ H1 H2). reflexivity.
+  rewrite (coc_unsigned_deep_wrong_ty _ _ _ H1 H2). reflexivity.
 Qed.
 
 Lemma index_non_array_rejected f D st a i a1 st1 i1 st2 :
@@ -272,7 +281,7 @@ Lemma shift_amount_not_u8_rejected f D st op x y x1 st1 y1 st2 :
 Proof.
   intros Hop Hx Hy H1 H2. cbn [Infer.check_expr]. rewrite Hx. cbn [cbind fst snd]. rewrite Hy. cbn [cbind fst snd].
   destruct Hop; subst op; (destruct (expect_num_type (ty_of x1)); cbn [cbind is_ok]; auto;
-    rewrite (coc_unsigned_wrong_ty _ _ H1 H2); reflexivity).
+    rewrite (coc_unsigned_deep_wrong_ty _ _ _ H1 H2); reflexivity).
 Qed.
 
 (* unary minus on something that is not a signed number *)
@@ -436,9 +445,9 @@ Qed.
 Ltac destr_tuples := repeat match goal with x : (_ * _)%type |- _ => destruct x end.
 Ltac inv_all' := repeat (progress (inv_all; destr_tuples; cbn [fst snd] in * )).
 
-Lemma accs_loop_same ce D :
+Lemma accs_loop_same ce fu D :
   (forall st x r, ce st x = COk r -> st_env (snd r) = st_env st) ->
-  forall accs st t r, accs_loop ce D st t accs = COk r -> st_env (snd r) = st_env st.
+  forall accs st t r, accs_loop ce fu D st t accs = COk r -> st_env (snd r) = st_env st.
 Proof.
   intros Hce. induction accs as [|a accs IH]; intros st t r H; cbn [accs_loop] in H; [inv_all; reflexivity|].
   apply cbind_ok in H. destruct H as [[[ta t'] st'] [H1 H2]]. cbv beta iota in H2.
@@ -546,7 +555,7 @@ Proof.
     + inv_all. cbn [snd st_env with_env]. rewrite tl_env_let. use_e IHe. congruence.
     + destruct (env_get (st_env st) x) as [[t [|]]|]; try discriminate. inv_all.
       destruct a as [[tas t'] st1]. inv_all.
-      match goal with H1 : accs_loop _ _ _ _ _ = _ |- _ => apply (accs_loop_same _ _ IHe) in H1 end.
+      match goal with H1 : accs_loop _ _ _ _ _ _ = _ |- _ => apply (accs_loop_same _ _ _ IHe) in H1 end.
       use_e IHe. fin.
     + inv_all. cbn [snd st_env with_env]. change env_pop with (@tl cscope).
       match goal with Hp : check_pattern _ _ _ _ = _, Hb : Infer.check_stmts _ _ _ _ _ = _ |- _ =>
@@ -591,19 +600,20 @@ End Scoping.
 
 (* ================================================================== T1: soundness w.r.t. Lang/Wt.v is FALSE *)
 
-(* `check_program .. P = COk P' -> Wt.wt_program P' = true` does not hold: four accepted
+(* `check_program .. P = COk P' -> Wt.wt_program P' = true` does not hold: three accepted
    programs whose typed tree is rejected by the re-checker (each confirmed on the real
    compiler, see InferExamples.v):
      pub fn main(x: u8) -> u8 { let y = 1 + 2; y + x }           (identifier re-typed at its use)
-     pub fn main(x: u8) -> u8 { let y = 1 + 2 + x; y }           (unify re-types only the node `1 + 2`)
      pub fn main(x: u8) -> u8 { let z = [1, 2, 3][0] + x; z }    (access node re-typed over 32-bit elements)
-     pub fn main(x: u8) -> u8 { let y = 5000000000; x }          (literal never range-checked) *)
+     pub fn main(x: u8) -> u8 { let y = 5000000000; x }          (literal never range-checked)
+   (`let y = 1 + 2 + x; y`, P_retype2, was a fourth witness until fix 64720dd: unify now constrains a compound
+   operand deeply, InferExamples.retype2_now_wt) *)
 Theorem check_sound_refuted :
-  forall P, In P [P_retype; P_retype2; P_retype3; P_big] ->
+  forall P, In P [P_retype; P_retype3; P_big] ->
   exists P', check_program ex_intern 50 P = COk P' /\ Wt.wt_program P' = false.
 Proof.
   intros P HP. cbn [In] in HP.
-  destruct HP as [<-|[<-|[<-|[<-|[]]]]]; eexists; (split; [vm_compute; reflexivity|vm_compute; reflexivity]).
+  destruct HP as [<-|[<-|[<-|[]]]]; eexists; (split; [vm_compute; reflexivity|vm_compute; reflexivity]).
 Qed.
 
 (* ================================================================== T3 *)
